@@ -126,3 +126,48 @@ def terminates(stmts):
     if isinstance(s, ast.If):
         return terminates(s.body) and terminates(s.orelse)
     return False
+
+
+class BodyPath:
+    """one path through a statement list: the branch decisions taken and the simple statements executed, in order"""
+    def __init__(self, conds=(), stmts=(), exit='fall'):
+        self.conds = list(conds)      # [(test expression, taken: bool)]
+        self.stmts = list(stmts)      # simple statements (Assign, AugAssign, Expr, ...), in execution order
+        self.exit = exit              # 'fall' | 'continue' | 'break' | 'return' | 'raise'
+
+    def extended(self, conds=(), stmts=(), exit=None):
+        return BodyPath(self.conds + list(conds), self.stmts + list(stmts), exit or self.exit)
+
+
+def body_paths(stmts, limit=256):
+    """all paths through a loop body / function body made of simple statements and if/elif/else (nested loops, try and
+    with blocks are kept as single opaque statements).  Raises ValueError beyond `limit` paths."""
+    paths = [BodyPath()]
+    for s in stmts:
+        new = []
+        for p in paths:
+            if p.exit != 'fall':
+                new.append(p)
+                continue
+            if isinstance(s, ast.If):
+                for taken, blk in ((True, s.body), (False, s.orelse)):
+                    for q in body_paths(blk, limit):
+                        new.append(p.extended([(s.test, taken)] + q.conds, q.stmts, q.exit))
+            elif isinstance(s, ast.Continue):
+                new.append(p.extended(exit='continue'))
+            elif isinstance(s, ast.Break):
+                new.append(p.extended(exit='break'))
+            elif isinstance(s, ast.Return):
+                new.append(p.extended(stmts=[s], exit='return'))
+            elif isinstance(s, ast.Raise):
+                new.append(p.extended(stmts=[s], exit='raise'))
+            elif isinstance(s, ast.Pass):
+                new.append(p)
+            else:
+                new.append(p.extended(stmts=[s]))
+        paths = new
+        if len(paths) > limit:
+            raise ValueError('more than %d paths' % limit)
+    # conditions are interleaved with statements only through their order of first appearance; rules that need the
+    # exact interleaving use `stmts` (execution order) and `conds` (decision order) separately
+    return paths
